@@ -1,10 +1,17 @@
 import Driver.Pixel
 import Driver.Geom
+import Driver.Render
 open Driver
 
 def step (line : String) : String :=
   match line.trimAscii.toString.splitOn " " with
   | "px" :: args => handlePx args
+  | "fit" :: args => handleRender "fit" args
+  | "layer" :: args => handleRender "layer" args
+  | "layerts" :: args => handleRender "layerts" args
+  | "maxbbox" :: args => handleRender "maxbbox" args
+  | "sizebook" :: args => handleRender "sizebook" args
+  | "tile" :: args => handleRender "tile" args
   | "vb2ts" :: args => handleGeom "vb2ts" args
   | "nestedvb" :: args => handleGeom "nestedvb" args
   | "concat" :: args => handleGeom "concat" args
